@@ -150,6 +150,10 @@ func genRedefScenario(r *rng) (*scenario, *filterSpec, *filterSpec) {
 		shuf[i] = sc.Opts[j]
 	}
 	sc.Opts = shuf
+	// now and then a prefix of the options is given to NewFunc as defaults: Redefine must take them into account
+	if r.chance(1, 3) && len(sc.Opts) > 0 {
+		sc.Defaults = r.intn(len(sc.Opts) + 1)
+	}
 	var fin, fout *filterSpec
 	if r.chance(5, 6) {
 		fin = &filterSpec{nest: r.intn(3)}
@@ -268,7 +272,7 @@ func genRedef(w *bufio.Writer, r *rng, id int) {
 	if id%3 == 0 {
 		// after everything else of this scenario (the probes rebuild the function objects)
 		defer func() {
-			fmt.Fprintf(w, "scn probe %d\nsibling %s\nbare %s\nend\n", id, siblingProbe(sc, sc.callArgs(false)), bareProbe(sc))
+			fmt.Fprintf(w, "scn probe %d\nsibling %s\nbare %s\npassthru %s\nend\n", id, siblingProbe(sc, sc.callArgs(false)), bareProbe(sc), passthruProbe())
 		}()
 	}
 	if newFn == nil || sc.Subs {
@@ -310,13 +314,32 @@ func genRedef(w *bufio.Writer, r *rng, id int) {
 	}
 	sc2 := *sc
 	sc2.Opts = append(append(append([]optSpecC(nil), sc.Opts...), named...), typed...)
-	sc2.header(w, "call", id*10+7, "fam=redefcall")
+	burn := false
+	for _, f := range sc.Funcs[1:] {
+		if f.Script == "fail@0" && !f.Once && r.chance(1, 2) {
+			burn = true
+		}
+	}
+	for _, f := range sc.Funcs {
+		if f.Once {
+			burn = false // a memoised result of the untraced call would be invisible to the replay
+		}
+	}
+	sc2.header(w, "call", id*10+7, fmt.Sprintf("fam=redefcall burn=%v", burn))
 	fmt.Fprintln(w, "dump skip")
 	for rep := 0; rep < 1; rep++ {
 		fmt.Fprintf(w, "run %d\n", rep)
 		w.Flush()
 		for _, f := range sc.Funcs {
 			f.execs = 0
+		}
+		if burn {
+			// a first, untraced call in which the failing converter fails; the traced one below must then succeed
+			// on the same redefined function and report no error
+			func() {
+				defer func() { recover() }()
+				newFn.Call(outer...)
+			}()
 		}
 		sc.events, sc.pops = nil, nil
 		am.VerifSetPopHook(func(h interface{}) { sc.pops = append(sc.pops, sc.hashName(h)) })
@@ -819,6 +842,44 @@ func wrapProbe(sc *scenario) string {
 			verdict = "err"
 		} else {
 			verdict = "ok"
+		}
+	}) {
+		verdict = "panic"
+	}
+	return verdict
+}
+
+// passthruProbe: one value set used as both the input and the output of a built function — what goes in comes out.
+func passthruProbe() string {
+	verdict := "skip"
+	if recovered(func() {
+		vs, err := am.NewValueSet([]am.Value{{Name: "zzp", Type: tyOf(0)}, {Type: tyOf(1)}})
+		if err != nil {
+			return
+		}
+		var seenA, seenT int
+		f, err := am.BuildFunc(vs, vs, func(in, out *am.ValueSet) error {
+			seenA, seenT = -1, -1
+			if v := in.Named("zzp"); v != nil {
+				seenA = vidOf(v.Value)
+			}
+			if v := in.Typed(tyOf(1)); v != nil {
+				seenT = vidOf(v.Value)
+			}
+			return nil
+		})
+		if err != nil || f == nil {
+			return
+		}
+		verdict = "intact"
+		for k := 0; k < 2; k++ {
+			res := f.Call(am.Named("zzp", mkValue(0, 31+k, -1).Interface()), am.Typed(mkValue(1, 41+k, -1).Interface()))
+			back, err2 := am.NewValueSet(vs.Values())
+			if res.Err() != nil || err2 != nil || back.FromResult(res) != nil ||
+				seenA != 31+k || seenT != 41+k ||
+				vidOf(back.Named("zzp").Value) != 31+k || vidOf(back.Typed(tyOf(1)).Value) != 41+k {
+				verdict = "changed"
+			}
 		}
 	}) {
 		verdict = "panic"
